@@ -79,6 +79,9 @@ Laws(r) == [id |-> r.id, reparseN |-> ReparseN(r), treeN |-> TreeN(r), idemN |->
 \* [d0 = dump of the literal, ok = the text parsed back to one function bound the same way, dI = its dump].
 \* Both dumps are normalised the way the evaluator normalises by design: an anonymous func(..){..} is a lambda.
 FnLaw(r) == r.ok /\ r.dI = r.d0
+\* C03, function values: that text is a fixpoint - the function read back from it is printed as the same bytes
+\* (t = the text, t2 = the text printed for the function obtained by evaluating t, ok2 = that could be done)
+FnIdem(r) == r.ok /\ r.ok2 /\ r.t2 = r.t
 
 \* C03: the bytes are a function of the input only - every observation of Fmt(m, input), whatever was
 \* parsed before in that process and in whichever process, is the same byte string.
